@@ -460,7 +460,17 @@ func concPubSubBody(obs *concObs, sc concPubSub, prop string) func() {
 				}
 			}
 		case "C20":
-			concStats(obs, w, sc, append(append([]*harness.Client{}, sconns...), pubs...), L, len(recs))
+			nbig := map[byte]uint64{}
+			for _, m := range msgs {
+				if m.big {
+					q := m.qos
+					if sc.subQoS < q {
+						q = sc.subQoS
+					}
+					nbig[q]++
+				}
+			}
+			concStats(obs, w, sc, append(append([]*harness.Client{}, sconns...), pubs...), L, nbig)
 		}
 		nd := 0
 		for _, x := range recs {
@@ -487,11 +497,16 @@ func concPubSubBody(obs *concObs, sc concPubSub, prop string) func() {
 
 // concStats compares every packet/byte/message counter and the gauges with the wire
 // logs at the final quiescent point (no take-over, everything acknowledged).
-func concStats(obs *concObs, w *harness.World, sc concPubSub, clients []*harness.Client, L *harness.Client, copies int) {
+func concStats(obs *concObs, w *harness.World, sc concPubSub, clients []*harness.Client, L *harness.Client, oversize map[byte]uint64) {
 	if L != nil {
 		clients = append(clients, L)
 	}
 	T := &c20Truth{m: map[string]uint64{}}
+	// messages larger than the subscriber's Maximum Packet Size are dropped whole and counted
+	for q, n := range oversize {
+		T.add(fmt.Sprintf("global.MessageStats.Qos%d.DroppedTotal.ExceedsMaxPacketSize", q), n)
+		T.add(fmt.Sprintf("client:s.MessageStats.Qos%d.DroppedTotal.ExceedsMaxPacketSize", q), n)
+	}
 	for _, cl := range clients {
 		cl.Pump()
 		scope := "client:" + cl.ID
